@@ -462,7 +462,7 @@ func runWalk(c *Ctx) {
 			if e, ok := set.Common().Args[1].(*ssa.Extract); ok {
 				if lk, ok := e.Tuple.(*ssa.Lookup); ok && (lk.X == ssa.Value(argMap) || p.Bind(lk.X) == ssa.Value(argMap)) {
 					if id, ok := lk.Index.(*ssa.Call); ok && core.CalleeName(id.Common()) == core.GVertexID {
-						if vc, ok := id.Common().Args[0].(*ssa.Call); ok && vc.Common().StaticCallee() != nil && vc.Common().StaticCallee().Name() == "vertex" {
+						if vc, ok := id.Common().Args[0].(*ssa.Call); ok && vc.Common().StaticCallee() != nil && vc.Common().StaticCallee() == valueVertexMethod(p) {
 							valB = vc.Common().Args[0]
 							keyOK = true
 						}
@@ -485,7 +485,7 @@ func runWalk(c *Ctx) {
 
 	// ---------------- SIBLING: Value.vertex() and the func builder's input loop agree
 	{
-		vm := p.Method(p.Arg, "Value", "vertex")
+		vm := valueVertexMethod(p)
 		if vm == nil {
 			c.R.Undecided("SIBLING", "Value.vertex", "Value.vertex", "-", "method not found")
 		} else {
@@ -662,4 +662,18 @@ func (c *Ctx) isPrevTypedOutputHelper(h *ssa.Function, outKind string) bool {
 		seenAssert = true
 	}
 	return seenAssert
+}
+
+// valueVertexMethod: the method of *Value that returns the graph vertex of that value (func (*Value) graph.Vertex,
+// found by shape, whatever it is called).
+func valueVertexMethod(p *core.Prog) *ssa.Function {
+	for _, f := range p.ArgFuncs() {
+		if f.Parent() != nil || f.Signature.Recv() == nil || len(f.Params) != 1 || core.TypeStr(f.Params[0].Type()) != "*Value" {
+			continue
+		}
+		if rs := f.Signature.Results(); rs.Len() == 1 && strings.HasSuffix(core.TypeStr(rs.At(0).Type()), "graph.Vertex") {
+			return f
+		}
+	}
+	return nil
 }
